@@ -21,6 +21,10 @@ UNITS = {
               "fn_props": {**PRELUDE_FNS, "get_line|get_newline_before|get_err_pos|lemma_.*": ["C16", "C09"]},
               "assumes": ["unit lexer: precondition `wf` (newline positions strictly increasing, inside the text, text at most isize::MAX bytes) is what LexerHelper::new establishes; `new` itself (char_indices over a &str) is only under the BOUNDED Kani unit b_lexer_new",
                           "unit lexer: rewrite R13 (`for (i, v) in <place>.iter().enumerate()` -> index loop; <place> is borrowed immutably by the original loop)"]},
+    "numbers": {"tpl": "numbers.rs", "props": ["C14", "C09", "C12", "C17", "C01", "C05"],
+                "fn_props": {**PRELUDE_FNS, "nm_pp_.*": ["C14", "C09"], "nm_it_.*": ["C01", "C05", "C09"], "nm_ld_.*": ["C12", "C09"], "nm_pr_.*": ["C17", "C09"]},
+                "assumes": ["unit numbers: ASSUMED contract of std's {u8,u16,i8,i16,u32,usize}::from_str_radix: for a well-formed digit string (what the literal token's regular expression admits) the result is Ok(v) iff the mathematical value of the text fits the type, and v is that value; the value of a text is an uninterpreted function. The bounded Kani units b_pp_* run the real from_str_radix on every literal of bounded length (cross-check of this assumption)",
+                            "unit numbers: the token text is ASCII with at least one digit after its prefix (the token's regular expression; the generated lexer is trusted)"]},
     "printer": {"tpl": "printer.rs", "props": ["C17", "C09"],
                 "fn_props": {**PRELUDE_FNS, "pr_.*": ["C17", "C09"]}},
     "interrupts": {"tpl": "interrupts.rs", "props": ["C18", "C09"],
@@ -51,6 +55,7 @@ VERUS_TRUSTED = [
     "Verus 0.2026.09.13 + its Z3; vstd's assumed specifications for Vec, HashMap<String,_> (obeys_key_model::<String>()), integer conversions",
     "assumed: <usize as Into<usize>>::into is the identity (one external_body axiom; vstd has no spec for that instance)",
     "assumed contracts of inc_addr and separate_bytes inside Verus units; both are discharged by Kani units l0_inc_addr / l0_separate_bytes",
+    "assumed (prelude): documented meaning of u8/u16/u32::overflowing_add/sub, u16::swap_bytes, i8/i16::wrapping_neg (std functions without a vstd specification; used by no function on the pinned tree)",
     "extractor rewrites R1-R6 (tuple-pattern parameters, ghost output log for print!, opaque format!, quantified stdin, attributes dropped, named ghost loop iterator)",
 ]
 
